@@ -11,6 +11,8 @@ import "sync"
 var VerifHooks struct {
 	// Yield is called before an atomic load/store/CAS; point names the call site.
 	Yield func(point string)
+	// Iter is called at the top of every iteration over a map, with the key.
+	Iter func(key any)
 	// Lock is called before a blocking acquisition of mu (a *sync.Mutex or
 	// *sync.RWMutex); kind is "lock" or "rlock". It returns when the harness has
 	// decided that the acquisition will not block.
@@ -22,6 +24,12 @@ var VerifHooks struct {
 func verifYield(point string) {
 	if h := VerifHooks.Yield; h != nil {
 		h(point)
+	}
+}
+
+func verifIter(key any) {
+	if h := VerifHooks.Iter; h != nil {
+		h(key)
 	}
 }
 
